@@ -17,6 +17,11 @@ type linIn struct {
 	Invoked int
 	SawOld  int
 	SawOk   bool
+	// trials with expiry (linexp.go): the manual clock before the call and after its return, the
+	// lifetime a write gives an entry, whether reads reset it
+	CLo, CHi int64
+	TTL      int64
+	Access   bool
 }
 
 type linOut struct {
@@ -25,8 +30,10 @@ type linOut struct {
 }
 
 const (
-	kRead     = 100
-	kReadMiss = 101
+	kRead      = 100
+	kReadMiss  = 101
+	kReadQuiet = 102 // the final GetEntryQuietly: a read that resets nothing
+	kMaybeTouch = 103 // access-reset expiry: the first phase of a ComputeIfPresent is a read of its own (it may reset the deadline of the entry it finds, whatever the second phase finds later)
 )
 
 func linStep(state, input, output any) (bool, any) {
@@ -44,7 +51,7 @@ func linStep(state, input, output any) (bool, any) {
 			return out.RV == st && !out.ROk, st
 		}
 		return out.RV == in.Arg && out.ROk, in.Arg
-	case kRead:
+	case kRead, kReadQuiet:
 		if out.ROk {
 			return st == out.RV, st
 		}
@@ -103,6 +110,10 @@ var linModel = porcupine.Model{
 		switch {
 		case in.Kind == kRead:
 			name = "read"
+		case in.Kind == kReadQuiet:
+			name = "finalRead"
+		case in.Kind == kMaybeTouch:
+			name = "firstPhaseRead"
 		case in.Kind == kReadMiss:
 			name = "readMiss"
 		case in.Kind < len(KindNames):
@@ -123,6 +134,8 @@ type LinResult struct {
 	Evicts     int
 	Installs   int
 	WaiterBounded int // installs whose end is bounded by the return of a waiter that received the value
+	AmbiguousClock int // operations during which the manual clock moved
+	Expirations    int // removals reported with cause Expiration
 	Witness    string // first illegal key's operations
 	CallbackViolation string
 }
@@ -132,6 +145,26 @@ func (t *Trial) CheckLinearizable(finals map[int]linOut, timeout time.Duration) 
 	var res LinResult
 	evs := t.Events()
 	end := t.now()
+	for _, rs := range t.Recs { // (a history re-checked offline: the stamps are those of the recording)
+		for i := range rs {
+			if rs[i].Ret > end {
+				end = rs[i].Ret
+			}
+		}
+	}
+	for _, e := range evs {
+		if e.T > end {
+			end = e.T
+		}
+	}
+	// trials with expiry are checked against the map-with-deadlines model of linexp.go
+	model := linModel
+	ttl, access := t.Cfg.ExpiryTTL, t.Cfg.ExpAccess
+	var endClk int64
+	if t.Clock != nil && t.Cfg.LinExp {
+		model = linExpModel
+		endClk = t.Clock.now.Load()
+	}
 	// loads by value: interval in which waiters may receive the value without it being cached
 	type loadIv struct{ from, to int64 }
 	loadsByVal := map[int]loadIv{}
@@ -192,7 +225,8 @@ func (t *Trial) CheckLinearizable(finals map[int]linOut, timeout time.Duration) 
 			if r.Key >= t.Cfg.Keys {
 				continue
 			}
-			in := linIn{Kind: r.Kind, Key: r.Key, Arg: r.Arg, Dec: r.Dec, Invoked: r.Invoked, SawOld: r.SawOld, SawOk: r.SawOk}
+			in := linIn{Kind: r.Kind, Key: r.Key, Arg: r.Arg, Dec: r.Dec, Invoked: r.Invoked, SawOld: r.SawOld, SawOk: r.SawOk,
+				CLo: r.ClkLo, CHi: r.ClkHi, TTL: ttl, Access: access}
 			out := linOut{RV: r.RV, ROk: r.ROk}
 			switch r.Kind {
 			case KSet, KSetIfAbsent, KInvalidate:
@@ -206,10 +240,16 @@ func (t *Trial) CheckLinearizable(finals map[int]linOut, timeout time.Duration) 
 				if r.Invoked > 1 && res.CallbackViolation == "" {
 					res.CallbackViolation = fmt.Sprintf("%s(%d) by worker %d ran its function %d times", KindNames[r.Kind], r.Key, w, r.Invoked)
 				}
+				if access && t.Cfg.LinExp && r.Kind == KComputeIfPresent {
+					mt := in
+					mt.Kind = kMaybeTouch
+					mt.Arg = 0
+					add(r.Key, porcupine.Operation{ClientId: w, Input: mt, Call: r.Call, Output: linOut{}, Return: r.Ret})
+				}
 			case KGet:
 				if r.LEnter != 0 {
 					// this call ran the loader: it saw the key absent before, and may have installed afterwards
-					add(r.Key, porcupine.Operation{ClientId: w, Input: linIn{Kind: kReadMiss, Key: r.Key}, Call: r.Call, Output: linOut{}, Return: r.LEnter})
+					add(r.Key, porcupine.Operation{ClientId: w, Input: linIn{Kind: kReadMiss, Key: r.Key, CLo: r.ClkLo, CHi: r.LClkEnter, TTL: ttl, Access: access}, Call: r.Call, Output: linOut{}, Return: r.LEnter})
 					if !r.LNF && observed[r.LVal] {
 						res.Installs++
 						until := r.Ret
@@ -217,22 +257,32 @@ func (t *Trial) CheckLinearizable(finals map[int]linOut, timeout time.Duration) 
 							until = wr
 							res.WaiterBounded++
 						}
-						add(r.Key, porcupine.Operation{ClientId: w, Input: linIn{Kind: KInstall, Key: r.Key, Arg: r.LVal}, Call: r.LExit, Output: linOut{}, Return: until})
+						add(r.Key, porcupine.Operation{ClientId: w, Input: linIn{Kind: KInstall, Key: r.Key, Arg: r.LVal, CLo: r.LClkExit, CHi: r.ClkHi, TTL: ttl, Access: access}, Call: r.LExit, Output: linOut{}, Return: until})
 					}
 					continue
 				}
 				if isWaiter(r) {
 					// may be a waiter of that load: its result is the load's, not a map read
+					if access && t.Cfg.LinExp {
+						// ... or a read that found the loaded value cached - and reset its deadline
+						mt := in
+						mt.Kind = kMaybeTouch
+						mt.Arg = r.RV
+						add(r.Key, porcupine.Operation{ClientId: w, Input: mt, Call: r.Call, Output: linOut{}, Return: r.Ret})
+					}
 					continue
 				}
 				if r.Err != 0 {
 					// waited for a load that answered not-found: all this call itself saw is the key absent
-					add(r.Key, porcupine.Operation{ClientId: w, Input: linIn{Kind: kReadMiss, Key: r.Key}, Call: r.Call, Output: linOut{}, Return: r.Ret})
+					add(r.Key, porcupine.Operation{ClientId: w, Input: linIn{Kind: kReadMiss, Key: r.Key, CLo: r.ClkLo, CHi: r.ClkHi, TTL: ttl, Access: access}, Call: r.Call, Output: linOut{}, Return: r.Ret})
 					continue
 				}
 				in.Kind = kRead
 			default:
 				continue
+			}
+			if r.ClkLo != r.ClkHi {
+				res.AmbiguousClock++
 			}
 			add(r.Key, porcupine.Operation{ClientId: w, Input: in, Call: r.Call, Output: out, Return: r.Ret})
 		}
@@ -277,12 +327,15 @@ func (t *Trial) CheckLinearizable(finals map[int]linOut, timeout time.Duration) 
 				ret = end + 1
 			}
 			res.Evicts++
-			add(e.Key, porcupine.Operation{ClientId: cid, Input: linIn{Kind: KEvict, Key: e.Key, Arg: e.Val}, Call: e.T, Output: linOut{}, Return: ret})
+			if e.Cause == 4 {
+				res.Expirations++
+			}
+			add(e.Key, porcupine.Operation{ClientId: cid, Input: linIn{Kind: KEvict, Key: e.Key, Arg: e.Val, Dec: e.Cause, CLo: e.Clk, CHi: e.Clk, TTL: ttl, Access: access}, Call: e.T, Output: linOut{}, Return: ret})
 		}
 	}
 	for k, f := range finals {
 		if k < t.Cfg.Keys {
-			add(k, porcupine.Operation{ClientId: cid + 1, Input: linIn{Kind: kRead, Key: k}, Call: end + 2, Output: f, Return: end + 3})
+			add(k, porcupine.Operation{ClientId: cid + 1, Input: linIn{Kind: kReadQuiet, Key: k, CLo: endClk, CHi: endClk, TTL: ttl, Access: access}, Call: end + 2, Output: f, Return: end + 3})
 		}
 	}
 	keys := make([]int, 0, len(byKey))
@@ -301,7 +354,7 @@ func (t *Trial) CheckLinearizable(finals map[int]linOut, timeout time.Duration) 
 		for i := range ops {
 			ops[i].ClientId = i
 		}
-		r, _ := porcupine.CheckOperationsVerbose(linModel, ops, timeout)
+		r, _ := porcupine.CheckOperationsVerbose(model, ops, timeout)
 		switch r {
 		case porcupine.Ok:
 			res.Ok++
@@ -310,10 +363,27 @@ func (t *Trial) CheckLinearizable(finals map[int]linOut, timeout time.Duration) 
 			if res.Witness == "" {
 				sort.Slice(ops, func(i, j int) bool { return ops[i].Call < ops[j].Call })
 				s := fmt.Sprintf("key %d has no linearization; its operations in call order:\n", k)
-				for _, o := range ops {
-					s += fmt.Sprintf("  [%d,%d] %s\n", o.Call, o.Return, linModel.DescribeOperation(o.Input, o.Output))
+				if short := shortestIllegalPrefix(model, ops, timeout); short != nil && len(short) < len(ops) {
+					s = fmt.Sprintf("key %d has no linearization; the shortest prefix of its history, cut where no operation of the key was in progress, that has none (%d of %d operations), in call order:\n", k, len(short), len(ops))
+					var after []porcupine.Operation
+					for _, o := range ops {
+						if o.Call > short[len(short)-1].Call && len(after) < 12 {
+							after = append(after, o)
+						}
+					}
+					ops = short
+					defer func() {
+						s := "  operations called after the cut (context):\n"
+						for _, o := range after {
+							s += fmt.Sprintf("  [%d,%d] %s\n", o.Call, o.Return, model.DescribeOperation(o.Input, o.Output))
+						}
+						res.Witness += s
+					}()
 				}
-				res.Witness = s
+				for _, o := range ops {
+					s += fmt.Sprintf("  [%d,%d] %s\n", o.Call, o.Return, model.DescribeOperation(o.Input, o.Output))
+				}
+				res.Witness = s + stuckAt(model, ops, timeout)
 			}
 		default:
 			res.Unknown++
@@ -345,4 +415,79 @@ func maxOverlap(ops []porcupine.Operation) int {
 		}
 	}
 	return best
+}
+
+// shortestIllegalPrefix cuts an illegal history (sorted by call time) at the earliest quiescent point of the
+// key (an instant that no operation of the key spans) at which it is already illegal: everything before such
+// a point had returned before anything after it was called, so the prefix is a complete history of its own.
+func shortestIllegalPrefix(model porcupine.Model, ops []porcupine.Operation, timeout time.Duration) []porcupine.Operation {
+	var maxRet int64 = -1 << 62
+	for n := 1; n < len(ops); n++ {
+		if ops[n-1].Return > maxRet {
+			maxRet = ops[n-1].Return
+		}
+		if n < 2 || maxRet >= ops[n].Call {
+			continue
+		}
+		pre := append([]porcupine.Operation(nil), ops[:n]...)
+		for i := range pre {
+			pre[i].ClientId = i
+		}
+		if r, _ := porcupine.CheckOperationsVerbose(model, pre, timeout/4); r == porcupine.Illegal {
+			return pre
+		}
+	}
+	return nil
+}
+
+// stuckAt describes where the search gets stuck: the longest order of operations that the model accepts (its
+// last steps with the model state after each) and the operations that were callable next but are rejected.
+func stuckAt(model porcupine.Model, ops []porcupine.Operation, timeout time.Duration) string {
+	for i := range ops {
+		ops[i].ClientId = i
+	}
+	_, info := porcupine.CheckOperationsVerbose(model, ops, timeout/4)
+	parts := info.PartialLinearizationsOperations()
+	if len(parts) == 0 {
+		return ""
+	}
+	var best []porcupine.Operation
+	for _, pl := range parts[0] {
+		if len(pl) > len(best) {
+			best = pl
+		}
+	}
+	type id struct{ c, r int64 }
+	done := map[id]bool{}
+	st := model.Init()
+	var lines []string
+	for _, o := range best {
+		_, st = model.Step(st, o.Input, o.Output)
+		done[id{o.Call, o.Return}] = true
+		d := fmt.Sprint(st)
+		if model.DescribeState != nil {
+			d = model.DescribeState(st)
+		}
+		lines = append(lines, fmt.Sprintf("  [%d,%d] %s   => %s\n", o.Call, o.Return, model.DescribeOperation(o.Input, o.Output), d))
+	}
+	if len(lines) > 8 {
+		lines = lines[len(lines)-8:]
+	}
+	s := fmt.Sprintf("  the longest order the model accepts has %d of the %d operations; its last steps and the state after each:\n", len(best), len(ops))
+	for _, l := range lines {
+		s += l
+	}
+	var minRet int64 = 1 << 62
+	for _, o := range ops {
+		if !done[id{o.Call, o.Return}] && o.Return < minRet {
+			minRet = o.Return
+		}
+	}
+	s += "  operations that could come next (none is accepted in that state):\n"
+	for _, o := range ops {
+		if !done[id{o.Call, o.Return}] && o.Call <= minRet {
+			s += fmt.Sprintf("  [%d,%d] %s\n", o.Call, o.Return, model.DescribeOperation(o.Input, o.Output))
+		}
+	}
+	return s
 }
